@@ -137,6 +137,6 @@ pub fn dispatch(op: &str, req: &Value) -> Result<Value, String> {
             }
             Ok(json!(outs))
         }
-        _ => Err(format!("unknown op {op}")),
+        _ => crate::ops17::dispatch(op, req),
     }
 }
